@@ -12,8 +12,23 @@ Definition add_op_code (code : Z) (codes : list Z) : Z * list Z :=
   | None => (lenZ codes, codes ++ [code])
   end.
 
-Definition new_activation_tensor (base : tensor) (sfx : Z) : tensor :=
-  {| t_root := t_root base; t_sfx := t_sfx base ++ [sfx]; t_shape := t_shape base;
+(* add_new_activation_tensor: name = base name + suffix, made unique within
+   the subgraph by appending "_k" (k = 1, 2, ...; encoded as suffix 2+k) *)
+Definition has_name (ts : list tensor) (root : Z) (sfx : list Z) : bool :=
+  existsb (fun t => Z.eqb (t_root t) root && list_eqb Z.eqb (t_sfx t) sfx) ts.
+
+Fixpoint fresh_sfx (ts : list tensor) (root : Z) (sfx : list Z) (k : Z) (fuel : nat)
+  : list Z :=
+  let cand := if Z.eqb k 0 then sfx else sfx ++ [2 + k] in
+  match fuel with
+  | O => cand
+  | S f => if has_name ts root cand then fresh_sfx ts root sfx (k + 1) f else cand
+  end.
+
+Definition new_activation_tensor (ts : list tensor) (base : tensor) (sfx : Z) : tensor :=
+  {| t_root := t_root base;
+     t_sfx := fresh_sfx ts (t_root base) (t_sfx base ++ [sfx]) 0 (S (length ts));
+     t_shape := t_shape base;
      t_ty := TY_FLOAT32; t_buf := 0; t_q := None |}.
 
 Definition set_tensor (g : subgraph) (tid : Z) (t : tensor) : subgraph :=
@@ -74,7 +89,7 @@ Definition insert_common (is_quant : bool) (codes : list Z) (bufs : list bufval)
   t <- get_tensor g tid ;;
   let new_id := lenZ (sg_tensors g) in
   let g1 := {| sg_tensors := sg_tensors g ++
-                 [new_activation_tensor t (if is_quant then 0 else 1)];
+                 [new_activation_tensor (sg_tensors g) t (if is_quant then 0 else 1)];
                sg_ops := sg_ops g; sg_inputs := sg_inputs g;
                sg_outputs := sg_outputs g |} in
   (* quant: annotate the NEW tensor; dequant: quantize the ORIGINAL one *)
